@@ -425,9 +425,9 @@ Section CSE2.
     apply (NoDup_app_disj _ _ x Hnd); [left; reflexivity|]. apply in_flat_map. exists n2. rewrite E2. simpl. auto.
   Qed.
 
-  Lemma cse_loop_pres sl : forall keys seen m fresh,
+  Lemma cse_loop_pres u sl : forall keys seen m fresh,
     WF m -> NoOpFunc m -> MainLocal m -> FreshB m fresh -> NoDup (seen ++ keys) ->
-    Pres m (fst (cse_loop sl keys seen m fresh)).
+    Pres m (fst (cse_loop u sl keys seen m fresh)).
   Proof.
     induction keys as [|k rest IH]; intros seen m fresh HW HN HML HF Hnd; simpl; [apply Pres_refl; assumption|].
     destruct (NoDup_remove_mid _ _ _ Hnd) as [Hnd' Hk].
@@ -438,6 +438,7 @@ Section CSE2.
       destruct (find (has_key k') (g_nodes (m_main m))) as [keep|] eqn:Ek; [|apply IH; assumption].
       apply find_some in En. destruct En as [Hn_in Hn_k]. apply find_some in Ek. destruct Ek as [Hkeep_in Hkeep_k].
       assert (Hkeep_all : In keep (all_nodes m)) by (unfold all_nodes, graphs_of; simpl; apply in_app_iff; left; exact Hkeep_in).
+      unfold cse_key_eqb_u in Hpred. apply andb_prop in Hpred. destruct Hpred as [_ Hpred].
       assert (Hne : n <> keep).
       { intros ->. unfold has_key in Hn_k, Hkeep_k. apply N.eqb_eq in Hn_k. apply N.eqb_eq in Hkeep_k.
         apply Hk. apply in_app_iff. left. congruence. }
@@ -447,7 +448,7 @@ Section CSE2.
     - apply IH; auto. rewrite <- app_assoc. simpl. exact Hnd.
   Qed.
 
-  Theorem cse_pres sl m fresh : WF m -> NoOpFunc m -> MainLocal m -> FreshB m fresh -> Pres m (fst (cse sl m fresh)).
+  Theorem cse_pres u sl m fresh : WF m -> NoOpFunc m -> MainLocal m -> FreshB m fresh -> Pres m (fst (cse u sl m fresh)).
   Proof.
     intros HW HN HML HF. unfold cse. apply cse_loop_pres; auto. simpl.
     apply node_keys_nodup.
